@@ -8,13 +8,16 @@
    equates a list with a tuple and lists are unhashable, both of which are
    visible through indexOf/distinct/groupBy/toSet. *)
 From Coq Require Import List ZArith Bool Arith Lia.
+From YV Require Import Common.Corr.
 Import ListNotations.
 
 Inductive val :=
 | VNull
 | VBool (b : bool)
 | VInt (z : Z)
-| VList (mut : bool) (l : list val).
+| VList (mut : bool) (l : list val)
+| VStr (s : list Z)                              (* a string: its code points *)
+| VDict (mut : bool) (d : list (val * val)).     (* FrozenDict (false) / dict (true), insertion order *)
 
 Inductive err := EValue | EType | EStop | ENoMatch | ETooLarge | EIndex | EKey | EOther.
 
@@ -46,6 +49,17 @@ Fixpoint val_eqb (a b : val) : bool :=
   | VBool x, VInt y => Z.eqb (if x then 1 else 0) y
   | VInt x, VBool y => Z.eqb x (if y then 1 else 0)
   | VInt x, VInt y => Z.eqb x y
+  | VStr x, VStr y => list_eqb Z.eqb x y
+  | VDict _ d, VDict _ d' =>
+      (* Python compares dicts (and FrozenDict with dict) item-wise regardless of insertion order; the model
+         compares in insertion order, which agrees on the generated inputs (dict elements are built with their
+         keys in one canonical order) *)
+      (fix go (d d' : list (val * val)) : bool :=
+         match d, d' with
+         | [], [] => true
+         | (k, v) :: r, (k', v') :: r' => val_eqb k k' && val_eqb v v' && go r r'
+         | _, _ => false
+         end) d d'
   | _, _ => false
   end.
 
@@ -63,12 +77,21 @@ Fixpoint val_obs_eqb (a b : val) : bool :=
          | x :: r, y :: r' => val_obs_eqb x y && go r r'
          | _, _ => false
          end) l l'
+  | VStr x, VStr y => list_eqb Z.eqb x y
+  | VDict _ d, VDict _ d' =>
+      (fix go (d d' : list (val * val)) : bool :=
+         match d, d' with
+         | [], [] => true
+         | (k, v) :: r, (k', v') :: r' => val_obs_eqb k k' && val_obs_eqb v v' && go r r'
+         | _, _ => false
+         end) d d'
   | _, _ => false
   end.
 
 Fixpoint hashable (v : val) : bool :=
   match v with
   | VList m l => negb m && forallb hashable l
+  | VDict m d => negb m && forallb (fun kv => hashable (fst kv) && hashable (snd kv)) d
   | _ => true
   end.
 
@@ -81,25 +104,38 @@ Definition truthy (v : val) : bool :=
   | VBool b => b
   | VInt z => negb (Z.eqb z 0)
   | VList _ l => match l with [] => false | _ => true end
+  | VStr s => match s with [] => false | _ => true end
+  | VDict _ d => match d with [] => false | _ => true end
   end.
 
 (* ---- ordering used by orderBy: yaql's #operator_< / #operator_> ------------ *)
-(* null is below everything else; integers (and booleans) by value.  Sequences
+(* null is below everything else; integers (and booleans) by value; strings by code points.  Sequences
    are not orderable in yaql (no overload); the rank function places them in one
    class so that the relation stays a total preorder on the whole universe. *)
-Definition key_rank (v : val) : Z * Z :=
+Definition key_rank (v : val) : Z * list Z :=
   match v with
-  | VNull => (0, 0)
-  | VBool b => (1, if b then 1 else 0)
-  | VInt z => (1, z)
-  | VList _ _ => (2, 0)
+  | VNull => (0, [])
+  | VBool b => (1, [if b then 1 else 0])
+  | VInt z => (1, [z])
+  | VStr s => (2, s)
+  | VList _ _ => (3, [])
+  | VDict _ _ => (4, [])
   end%Z.
+
+(* lexicographic comparison of code point / integer lists: Python's str and tuple-of-int order *)
+Fixpoint lcmp (a b : list Z) : comparison :=
+  match a, b with
+  | [], [] => Eq
+  | [], _ :: _ => Lt
+  | _ :: _, [] => Gt
+  | x :: r, y :: r' => match Z.compare x y with Eq => lcmp r r' | c => c end
+  end.
 
 Definition kcmp (a b : val) : comparison :=
   let '(ra, za) := key_rank a in
   let '(rb, zb) := key_rank b in
   match Z.compare ra rb with
-  | Eq => Z.compare za zb
+  | Eq => lcmp za zb
   | c => c
   end.
 
@@ -121,7 +157,12 @@ Inductive lam :=
 | LPair                    (* [$, $]       *)
 | LPairMod (c : Z)         (* [$ mod c, $] *)
 | LIdx (n : nat)           (* $[n]         *)
-| LConst (c : Z).          (* c            *)
+| LConst (c : Z)           (* c            *)
+| LField (k : list Z)      (* $.k on a dict element (k a keyword) *)
+| LFieldGt (k : list Z) (c : Z)   (* $.k > c *)
+| LStrLt (s : list Z)      (* $ < 's'      *)
+| LStrCat (s : list Z)     (* $ + 's'      *)
+| LStrLen.                 (* len($)       *)
 
 Definition apply (f : lam) (v : val) : val :=
   match f, v with
@@ -141,6 +182,16 @@ Definition apply (f : lam) (v : val) : val :=
   | LPairMod c, VInt z => VList false [VInt (Z.modulo z c); v]
   | LIdx n, VList _ l => nth n l VNull
   | LConst c, _ => VInt c
+  | LField k, VDict _ d => match find (fun kv => val_eqb (fst kv) (VStr k)) d with Some kv => snd kv | None => VNull end
+  | LFieldGt k c, VDict _ d =>
+      match find (fun kv => val_eqb (fst kv) (VStr k)) d with
+      | Some (_, VInt z) => VBool (Z.ltb c z)
+      | Some (_, VNull) => VBool false
+      | _ => VNull
+      end
+  | LStrLt t, VStr s => VBool (match lcmp s t with Lt => true | _ => false end)
+  | LStrCat t, VStr s => VStr (s ++ t)
+  | LStrLen, VStr s => VInt (Z.of_nat (length s))
   | _, _ => VNull          (* ill-typed application: never generated (see harness) *)
   end.
 
@@ -159,6 +210,7 @@ Definition apply2 (f : lam2) (a b : val) : val :=
   match f, a, b with
   | L2Add, VInt x, VInt y => VInt (x + y)
   | L2Add, VList false x, VList false y => VList false (x ++ y)     (* tuple + tuple *)
+  | L2Add, VStr x, VStr y => VStr (x ++ y)
   | L2Mul, VInt x, VInt y => VInt (x * y)
   | L2Fst, _, _ => a
   | L2Snd, _, _ => b
